@@ -85,7 +85,7 @@ func readMutants(dir string) ([]Mutant, error) {
 					fh.Close()
 					return nil, fmt.Errorf("%s:%d: edit outside a mutant", f, ln)
 				}
-				cur.Edits = append(cur.Edits, file+"|"+strings.Join(oldB, "\n")+"|"+strings.Join(newB, "\n"))
+				cur.Edits = append(cur.Edits, file+"\x1f"+strings.Join(oldB, "\n")+"\x1f"+strings.Join(newB, "\n"))
 			case mode == 1:
 				oldB = append(oldB, line)
 			case mode == 2:
